@@ -574,7 +574,10 @@ class reactive_ops:
         else:
             def apply(vs, *args, **kwargs):
                 return [func(v, *args, **kwargs) for v in vs]
-        return self._as_rx()._apply_operator(apply, *args, **kwargs)
+        # Every keyword is for func (also one named like a parameter of
+        # _apply_operator): the operation is built here
+        new = self._as_rx()._resolve_accessor()
+        return new._clone({'fn': apply, 'args': args, 'kwargs': kwargs, 'reverse': False})
 
     def not_(self) -> 'rx':
         """
@@ -697,7 +700,10 @@ class reactive_ops:
         >>> rx_result.rx.value
         30
         """
-        return self._as_rx()._apply_operator(func, *args, **kwargs)
+        # Every keyword is for func (also one named like a parameter of
+        # _apply_operator): the operation is built here
+        new = self._as_rx()._resolve_accessor()
+        return new._clone({'fn': func, 'args': args, 'kwargs': kwargs, 'reverse': False})
 
     def resolve(self, nested=True, recursive=False) -> 'rx':
         """
